@@ -9,7 +9,8 @@ The creation half of C09 belongs to another module.
 import random
 
 import evalcommon as ec
-from evalcommon import init_worker, requests, observe, describe, undescribe, key  # noqa: F401
+from evalcommon import init_worker, describe, undescribe, key  # noqa: F401
+from evalcommon import requests4 as requests, observe4 as observe  # noqa: F401
 
 CONFIG = {
     "id": "C09",
@@ -18,7 +19,8 @@ CONFIG = {
              "the fixed list and every flow-YAML tree of <= 3 nodes x collector expressions built from 14 operands "
              "(keys, *, **, indexes, slices, searches, nested collectors) joined by +, - and & (all pairs, sampled "
              "triples), alone and followed by a further segment; under get_nodes(mustexist=True), "
-             "get_nodes(mustexist=False) and exists().  A deep snapshot of the loaded document is compared before "
+             "get_nodes(mustexist=False), get_nodes(mustexist=False, default_value=...) and exists(); plus single-path "
+             "cases over documents whose existing paths end at or pass through null values.  A deep snapshot of the loaded document is compared before "
              "and after every single query.  non-trivial = some query returned nodes; distinct = distinct "
              "(document, path list)."),
     "trusted_base": [
@@ -60,41 +62,79 @@ def mutates(line):
     return line == "(mutates)"
 
 
+N = 4        # observations per path: required, optional, exists(), optional with a default_value
+
+
 def judge(case, obs):
     doc, paths = case
+    fails = []          # (message, explained by a finding's own condition)
     for i, p in enumerate(paths):
-        req, opt, ex = obs[3 * i], obs[3 * i + 1], obs[3 * i + 2]
+        req, opt, ex, optd = obs[N * i], obs[N * i + 1], obs[N * i + 2], obs[N * i + 3]
         if mutates(req):
-            return "required query %r changed the document %r" % (p, doc)
+            fails.append(("required query %r changed the document %r" % (p, doc), has_subtraction(p)))
         if mutates(ex):
-            return "exists(%r) changed the document %r" % (p, doc)
-        if mutates(opt) and req.startswith("(ok (") and req != "(ok ())":
-            return "optional query %r changed the document %r although the path exists (required matched)" % (p, doc)
-    return None
+            fails.append(("exists(%r) changed the document %r" % (p, doc), has_subtraction(p)))
+        if req.startswith("(ok (") and req != "(ok ())":
+            for line, d in ((opt, None), (optd, ec.OPT_DEFAULT)):
+                if mutates(line):
+                    known = has_subtraction(p) or ec.optional_probe(doc, p, d)["lacking"]
+                    fails.append(("optional query %r%s changed the document %r although the path exists (required "
+                                  "matched%s)" % (p, "" if d is None else " with default_value %r" % d, doc,
+                                                  "; in some branches only" if known else
+                                                  " and every segment evaluation of the optional walk found its node"),
+                                  known))
+    # the message names a failure no listed finding's condition covers, when there is one
+    for msg, known in fails:
+        if not known:
+            return msg
+    return fails[0][0] if fails else None
 
 
 def has_subtraction(path):
     return ")-(" in path
 
 
+def req_matched(obs, i):
+    return obs[N * i].startswith("(ok (") and obs[N * i] != "(ok ())"
+
+
+def opt_changes(case, obs):
+    """[(path, default)] of the optional queries that changed the document although the required query matched"""
+    doc, paths = case
+    out = []
+    for i, p in enumerate(paths):
+        if req_matched(obs, i):
+            if mutates(obs[N * i + 1]):
+                out.append((p, None))
+            if mutates(obs[N * i + 3]):
+                out.append((p, ec.OPT_DEFAULT))
+    return out
+
+
+def read_changes(case, obs):
+    """paths whose required query or exists() changed the document"""
+    return [case[1][i // N] for i, l in enumerate(obs) if mutates(l) and i % N in (0, 2)]
+
+
 def f16_subtraction(case, obs):
     """every query of the case that changed the document on a read has a subtraction collector"""
-    doc, paths = case
-    bad = [paths[i // 3] for i, l in enumerate(obs) if mutates(l) and i % 3 != 1]
-    bad += [paths[i] for i in range(len(paths)) if mutates(obs[3 * i + 1]) and obs[3 * i].startswith("(ok (")
-            and obs[3 * i] != "(ok ())" and has_subtraction(paths[i])]
+    bad = read_changes(case, obs) + [p for (p, _d) in opt_changes(case, obs) if has_subtraction(p)]
     return bool(bad) and all(has_subtraction(p) for p in bad) and not f16b_partial_existence(case, obs)
 
 
 def f16b_partial_existence(case, obs):
-    """the only changes are made by optional queries (no subtraction) whose path the required query matches:
-    the path exists in some branches (list elements, wildcard children) and its tail is created in the others"""
+    """the only changes are made by optional queries (no subtraction) whose path the required query matches, and
+    each of them meets F16b's own condition: the path exists in some branches only - somewhere the optional
+    walk evaluated a creatable segment on a node it had reached and that segment selected nothing there
+    (ec.optional_probe: `lacking`), so the tail was created in that branch.  An optional query that changes the
+    document although every segment evaluation of its walk found its node is NOT this finding."""
     doc, paths = case
-    if any(mutates(l) and i % 3 != 1 for i, l in enumerate(obs)):
+    if read_changes(case, obs):
         return False
-    bad = [paths[i] for i in range(len(paths)) if mutates(obs[3 * i + 1]) and obs[3 * i].startswith("(ok (")
-           and obs[3 * i] != "(ok ())"]
-    return bool(bad) and not any(has_subtraction(p) for p in bad)
+    bad = opt_changes(case, obs)
+    if not bad or any(has_subtraction(p) for (p, _d) in bad):
+        return False
+    return all(ec.optional_probe(doc, p, d)["lacking"] for (p, d) in bad)
 
 
 FINDING_PREDS = {"subtraction_over_hash": f16_subtraction, "optional_partial_existence": f16b_partial_existence}
@@ -115,11 +155,28 @@ def corpus_chunks():
     yield [("{h: {a: 1, b: 2}}", ["(h)-(h.a)", "(h)-(h.a)+(h)"]), ("[{a: {b: 1}}, {a: {c: 1}}]", ["a.b"])]
 
 
+# optional queries (without / with a default_value) over paths that exist and end at, or pass through, null values:
+# single-path cases, so that a failing one is a minimal replay
+NULL_DOCS = ["{a: null}", "{a: {b: null}}", "[{a: null}]", "{a: [null]}", "[null]", "{a: null, b: 1}", "[null, 1]",
+             "{a: {b: null, c: 1}}", "[{a: null}, {a: null}]", "{a: ~, b: {a: ~}}", "[[null]]", "{a: [{b: null}]}",
+             "[{a: null}, {a: 1}]", "{a: {b: {c: null}}}"]
+NULL_PATHS = ["a", "/a", "a.b", "/a/b", "[0].a", "a[0]", "[0]", "/[0]", "*", "**", "a.*", "b.a", "[0][0]", "a[0].b",
+              "a.b.c", "[1]", "b", "a.c", "(a)", "(a)+(b)", "(a.b)", "[&x]", "a[0:1]", "[a=1]"]
+
+
+def gen_null_cases():
+    for d in NULL_DOCS:
+        for p in NULL_PATHS:
+            yield (d, [p])
+
+
 def chunks(tier, seed):
     thorough = tier == "thorough"
     rng = random.Random(seed + 9)
 
     def gen():
+        for c in gen_null_cases():
+            yield c
         docs = list(ec.SPECIAL_DOCS) + EXTRA_DOCS + list(ec.small_docs(3))
         cps = collector_paths(rng, 600 if thorough else 150)
         for d in docs:
